@@ -48,6 +48,7 @@ type Options struct {
 	ListenIP          string
 	RefreshWindow     time.Duration
 	BackendAuth       string // "" | "password" | "dse": the backend demands authentication, the proxy is given the credentials
+	Contact           string // contact point of the proxy (default: the first node of the cluster)
 }
 
 type Env struct {
@@ -140,7 +141,7 @@ func Start(o Options) (*Env, error) {
 	cfg := proxy.Config{
 		Version:           o.Version,
 		MaxVersion:        o.MaxVersion,
-		Resolver:          proxycore.NewResolverWithDefaultPort([]string{e.IPs[0]}, e.C.Port),
+		Resolver:          proxycore.NewResolverWithDefaultPort([]string{contactOf(o, e)}, e.C.Port),
 		ReconnectPolicy:   proxycore.NewReconnectPolicyWithDelays(o.ReconnectBase, o.ReconnectMax),
 		NumConns:          o.NumConns,
 		HeartBeatInterval: o.HeartBeat,
@@ -181,6 +182,13 @@ func Start(o Options) (*Env, error) {
 	go e.P.Serve(ln)
 	t.Emit("Ready", "hosts", e.HostKeys(), "numconns", o.NumConns)
 	return e, nil
+}
+
+func contactOf(o Options, e *Env) string {
+	if o.Contact != "" {
+		return o.Contact
+	}
+	return e.IPs[0]
 }
 
 // HostKeys returns "ip:port" of every node the cluster was started with, sorted as the proxy sorts hosts.
